@@ -180,6 +180,9 @@ func funcRange(v []data.Value) data.Value {
 	for index := init; index < limit; index += increment {
 		indices = append(indices, data.Int(index))
 		i++
+		if increment > 0 && index+increment < index {
+			break // the next index does not fit in an int, so it is past every limit
+		}
 	}
 	return indices
 }
